@@ -2,6 +2,8 @@
 
 package bytesconv
 
+import "strconv"
+
 // Export hooks for the C03 correspondence harness: the unexported stages of ParseFloat.
 
 func VerifSpecial(s []byte) (float64, bool) { return special(s) }
@@ -31,4 +33,55 @@ func VerifRoundedInteger(digits []byte, dp int, trunc bool) (uint64, bool) {
 	a.trunc = trunc
 	up := shouldRoundUp(&a, a.dp)
 	return a.RoundedInteger(), up
+}
+
+// ---- the multiprecision slow path (decimal.go, decimal.set, floatBits) ----
+
+func verifMkDecimal(digits []byte, dp int, neg, trunc bool) *decimal {
+	var a decimal
+	a.nd = copy(a.d[:], digits)
+	a.dp = dp
+	a.neg = neg
+	a.trunc = trunc
+	return &a
+}
+
+// VerifDecShift runs the real Shift on a decimal given by its digits.
+func VerifDecShift(digits []byte, dp int, trunc bool, k int) ([]byte, int, bool) {
+	a := verifMkDecimal(digits, dp, false, trunc)
+	a.Shift(k)
+	return append([]byte(nil), a.d[:a.nd]...), a.dp, a.trunc
+}
+
+// VerifDecSet runs decimal.set.
+func VerifDecSet(s []byte) (digits []byte, dp int, neg, trunc, ok bool) {
+	var d decimal
+	ok = d.set(s)
+	return append([]byte(nil), d.d[:d.nd]...), d.dp, d.neg, d.trunc, ok
+}
+
+// VerifDecFloatBits runs floatBits on a decimal given by its digits; also returns d.trunc afterwards.
+func VerifDecFloatBits(digits []byte, dp int, neg, trunc bool) (uint64, bool, bool) {
+	a := verifMkDecimal(digits, dp, neg, trunc)
+	b, ovf := a.floatBits(&float64info)
+	return b, ovf, a.trunc
+}
+
+// VerifSlowPath is the slow fallback of atof64 alone: d.set(s), d.floatBits.
+func VerifSlowPath(s []byte) (bits uint64, ovf, ok, trunc bool) {
+	var d decimal
+	if !d.set(s) {
+		return 0, false, false, false
+	}
+	b, o := d.floatBits(&float64info)
+	return b, o, true, d.trunc
+}
+
+// VerifLeftCheats dumps the cheat table as "delta:cutoff" entries.
+func VerifLeftCheats() []string {
+	var out []string
+	for _, c := range leftcheats {
+		out = append(out, strconv.Itoa(c.delta)+":"+c.cutoff)
+	}
+	return out
 }
